@@ -76,7 +76,10 @@ package transactional
 // Commit (coarse): every reference pending in the transaction is written to
 // the base storage: the callback applied to each pending reference either
 // fails or leaves the base holding exactly that reference under its name
-// (property C19: after Commit the base equals the view).
+// (property C19: after Commit the base equals the view). The removals of the
+// transaction reach the base before its pending references are listed and
+// written: a transaction may remove refs/heads/x and set refs/heads/x/y, which
+// a filesystem base can only store in that order.
 //gvc:func ReferenceStorage.Commit
 //gvc:  props C19
 //gvc:  theory int
@@ -84,6 +87,7 @@ package transactional
 //gvc:  opt frame args
 //gvc:  lit 1 requires ref != nil
 //gvc:  lit 1 ensures applied: litresult == nil ==> r.ReferenceStorer.#refs[strid(ref.n)] == ref
+//gvc:  sink RemoveReference requires first: calls("IterReferences") == 0 && calls("ForEach") == 0
 //gvc:end
 
 // Transactional reflogs (property C19): the log a reader sees for name k is
